@@ -249,7 +249,7 @@ def main(argv):
                 inconclusive.append("%s: %s" % (r["name"], r["detail"]))
         if r["status"] != "FAIL":
             continue
-        solver_msgs = [m for m in r["detail"].split("; ") if m]
+        solver_msgs = [m for m in r["detail"].split(" ;; ") if m]
         if r["engine"] != "incrate":
             # external engines run foca's code without stubs of its logic; the
             # solver's counterexample is reported with its value tape.
